@@ -111,10 +111,12 @@ class C05(runner.Check):
     def configs(self, tier):
         cf = []
 
-        def add(mode, k=1, p=1, V="R35", reg="krr", kernel="linear", center=False, hv=2, cost=3, **fam):
+        def add(mode, k=1, p=1, V="R35", reg="krr", kernel="linear", center=False, hv=2, cost=3, coef0=None, **fam):
             f = {"V": V}
             f.update(fam)
             cf.append({"mode": mode, "n": 4, "m": 2, "p": p, "k": k, "reg": reg, "kernel": kernel, "center": center, "hv": hv, "family": f, "_cost": cost})
+            if coef0 is not None:
+                cf[-1]["coef0"] = coef0
 
         for hv in (1, 2, 4, 5):
             add("score", hv=hv, cost=4 + hv)
@@ -125,7 +127,9 @@ class C05(runner.Check):
         add("center-equiv", k=1, center=True, cost=8)
         add("regressors", k=1, cost=5)
         add("refit-center", k=1, center=True, reg="precomputed", cost=10)  # history: fit with center=True, set_params(center=False), fit again
+        add("score", hv=2, k=1, kernel="poly", V="I", coef0=0, cost=12)  # homogeneous polynomial kernel: a zero-valued kernel parameter must be forwarded
         if tier == "thorough":
+            add("precomputed-equiv", k=1, kernel="poly", V="I", coef0=0, cost=40)
             add("precomputed-equiv", k=1, kernel="poly", V="I", cost=60)
             for hv in (1, 3, 4, 5):
                 add("score", hv=hv, k=2, reg="precomputed", cost=10)
@@ -149,7 +153,7 @@ class C05(runner.Check):
         from sklearn.kernel_ridge import KernelRidge
 
         kernel = kernel or cfg["kernel"]
-        kw = dict(kernel=kernel, gamma=1 if kernel == "poly" else None, degree=2 if kernel == "poly" else 3, coef0=1)
+        kw = dict(kernel=kernel, gamma=1 if kernel == "poly" else None, degree=2 if kernel == "poly" else 3, coef0=cfg.get("coef0", 1))
         if regressor == "auto":
             if cfg["reg"] == "precomputed":
                 regressor = "precomputed"
@@ -196,7 +200,7 @@ class C05(runner.Check):
         est.fit(X, Yfit)
 
         def K_of(A, B=None):
-            return stub_pairwise_kernels(A, B, metric=cfg["kernel"], gamma=1 if cfg["kernel"] == "poly" else None, degree=2, coef0=1)
+            return stub_pairwise_kernels(A, B, metric=cfg["kernel"], gamma=1 if cfg["kernel"] == "poly" else None, degree=2, coef0=cfg.get("coef0", 1))
 
         if mode == "score":
             # abstraction by naming: the score identity is a statement about how score() combines the fitted projectors with
@@ -300,7 +304,7 @@ class C05(runner.Check):
         Yv = np.array([[float(values.get(f"w_{i}_{j}", rng.randn())) for j in range(p)] for i in range(hv)])
         viol = []
         Yfit = Yin if cfg["reg"] == "precomputed" else Y
-        kp = dict(gamma=1 if cfg["kernel"] == "poly" else None, degree=2 if cfg["kernel"] == "poly" else 3, coef0=1)
+        kp = dict(gamma=1 if cfg["kernel"] == "poly" else None, degree=2 if cfg["kernel"] == "poly" else 3, coef0=cfg.get("coef0", 1))
 
         def K_of(A, B=None):
             return pairwise_kernels(A, B, metric=cfg["kernel"], filter_params=True, **kp)
